@@ -292,10 +292,10 @@ fn static_random(rng: &mut Rng, count: usize, cases: &mut Vec<Case>) {
 /// exhaustive dynamic histories of exactly `len` ops from an initial configuration over node ids
 /// 0..3: ins s t (s in 0..3, t in {0,2}, data distinct per op), rem of every present edge, node
 /// (while n < 3), setd on the oldest present edge
-fn dyn_exhaustive(len: usize, n0: usize, init: &[E], family: &str, cases: &mut Vec<Case>) {
-    fn rec(sh: &Shadow, cur: &mut Vec<Op>, len: usize, n0: usize, init: &[E], family: &str, cases: &mut Vec<Case>) {
+fn dyn_exhaustive(len: usize, header: &str, n0: usize, init: &[E], family: &str, cases: &mut Vec<Case>) {
+    fn rec(sh: &Shadow, cur: &mut Vec<Op>, len: usize, header: &str, init: &[E], family: &str, cases: &mut Vec<Case>) {
         if cur.len() == len {
-            cases.push(case_from(family, &format!("dyn {n0}"), init, cur));
+            cases.push(case_from(family, header, init, cur));
             return;
         }
         let d = 10 + cur.len() as i32;
@@ -322,11 +322,11 @@ fn dyn_exhaustive(len: usize, n0: usize, init: &[E], family: &str, cases: &mut V
             let mut s2 = sh.clone();
             s2.apply(&op);
             cur.push(op);
-            rec(&s2, cur, len, n0, init, family, cases);
+            rec(&s2, cur, len, header, init, family, cases);
             cur.pop();
         }
     }
-    rec(&Shadow { n: n0, es: init.to_vec() }, &mut Vec::new(), len, n0, init, family, cases);
+    rec(&Shadow { n: n0, es: init.to_vec() }, &mut Vec::new(), len, header, init, family, cases);
 }
 
 struct DynParams {
@@ -404,7 +404,8 @@ fn dyn_random(rng: &mut Rng, p: &DynParams, family: &str) -> Case {
         sh.apply(&op);
         ops.push(op);
     }
-    case_from(family, &format!("dyn {n0}"), &init, &ops)
+    let header = if n0 == 0 && init.is_empty() && rng.chance(1, 2) { "dyn default".to_string() } else { format!("dyn {n0}") };
+    case_from(family, &header, &init, &ops)
 }
 
 fn generate(rng: &mut Rng, tier: Tier, cases: &mut Vec<Case>) {
@@ -413,6 +414,9 @@ fn generate(rng: &mut Rng, tier: Tier, cases: &mut Vec<Case>) {
     //      matrix asks find_edge for every s in 0..n+3, so every static case re-tests it
     cases.push(case_from("corpus-d10", "static", &[(0, 1, 5)], &[]));
     cases.push(case_from("corpus-d10", "static", &[(1, 0, 5), (0, 1, 7), (1, 1, 7)], &[Op::SetD(1, 1, 7, 9)]));
+    // D19: a default-constructed dynamic graph had an empty node array; every call on it panicked
+    cases.push(case_from("corpus-d19", "dyn default", &[], &[Op::Node, Op::Ins(0, 1, 5)]));
+    cases.push(case_from("corpus-d19", "dyn default", &[], &[Op::Ins(2, 0, 1), Op::Ins(2, 1, 2), Op::Rem(2, 0, 1)]));
     // hand-written dynamic histories for the three insert branches and hole reuse
     cases.push(case_from(
         "corpus-branches",
@@ -436,10 +440,12 @@ fn generate(rng: &mut Rng, tier: Tier, cases: &mut Vec<Case>) {
         static_exhaustive(3, 3, 2, "static-exhaustive", cases);
     }
     let (l_empty, l_packed) = if quick { (5, 4) } else { (6, 5) };
-    dyn_exhaustive(l_empty, 0, &[], "dyn-exhaustive-empty", cases);
-    dyn_exhaustive(l_packed, 3, &[(0, 1, 1), (1, 2, 2), (2, 0, 3)], "dyn-exhaustive-packed", cases);
-    dyn_exhaustive(l_packed, 3, &[(0, 1, 1), (0, 2, 2), (2, 0, 3)], "dyn-exhaustive-zero-degree", cases);
-    dyn_exhaustive(l_packed, 2, &[(1, 0, 1)], "dyn-exhaustive-zero-first", cases);
+    dyn_exhaustive(l_empty, "dyn 0", 0, &[], "dyn-exhaustive-empty", cases);
+    // Default::default() must behave like new(0, vec![]) (D19)
+    dyn_exhaustive(l_packed, "dyn default", 0, &[], "dyn-exhaustive-default", cases);
+    dyn_exhaustive(l_packed, "dyn 3", 3, &[(0, 1, 1), (1, 2, 2), (2, 0, 3)], "dyn-exhaustive-packed", cases);
+    dyn_exhaustive(l_packed, "dyn 3", 3, &[(0, 1, 1), (0, 2, 2), (2, 0, 3)], "dyn-exhaustive-zero-degree", cases);
+    dyn_exhaustive(l_packed, "dyn 2", 2, &[(1, 0, 1)], "dyn-exhaustive-zero-first", cases);
     // ---- random
     static_random(rng, if quick { 400 } else { 4000 }, cases);
     let scale = if quick { 1 } else { 10 };
